@@ -181,6 +181,13 @@ theorem doktorov_position_counterexample :
         * Matrix.fromBlocks U1 0 0 U1).toBlocks₁₁ = U2 * Matrix.diagonal σ * U1 :=
   doktorov_position_fails
 
+/-- … and no repair can keep both conventions the existing tests pin (`U₂ e^{r} U₁ = J` for the output of
+`gbs_params`, `Sgate(r)` in `VibronicTransition`): the position block equals `J` as well only without squeezing -/
+theorem doktorov_no_compatible_parameters {n : Type} [Fintype n] [DecidableEq n] (U1 U2 : Matrix n n ℝ) (σ σ' : n → ℝ)
+    (hσ : ∀ i, σ i * σ' i = 1) (h1 : U1 * U1.transpose = 1) (h2 : U2.transpose * U2 = 1)
+    (h : U2 * Matrix.diagonal σ' * U1 = U2 * Matrix.diagonal σ * U1) : ∀ i, σ i * σ i = 1 :=
+  doktorov_both_blocks U1 U2 σ σ' hσ h1 h2 h
+
 /-! ## bookkeeping -/
 
 /-- **sample store** (`get_A_init_samples`), for every history: the store only grows by appending, the result is the
@@ -210,6 +217,63 @@ theorem prob_event_sum {K : Type} [CommRing K] (P : List Nat → K) (photons max
       sumL (((Apps.orbits photons).filter fun o => Apps.listMax o ≤ maxCount).map fun o =>
         sumL ((orbitPatterns o modes).map P)) := rfl
 
+/-! ## the GBS distribution has the exponential-family form (hafnian homogeneity) -/
+
+/-- **homogeneity of the hafnian** (perfect-matching recursion, every index list with repetitions, every fuel):
+`Haf((s_i A_ij s_j)_idx) = Π_{i ∈ idx} s_i · Haf(A_idx)` -/
+theorem hafnian_homogeneous {K : Type} [CommRing K] (s : Nat → K) (A : Nat → Nat → K) (fuel : Nat) (idx : List Nat) :
+    hafAux (fun i j => s i * A i j * s j) fuel idx = prodL (idx.map s) * hafAux A fuel idx :=
+  hafAux_scale s A fuel idx
+
+/-- **`prob_photon_sample` is an exponential family in the weights**: for every matrix, every pattern on at most `m`
+modes and `s_k² = w_k`, `|Haf((W A W)_n)|² = Π_k w_k^{n_k} |Haf(A_n)|²` where `W A W` is the matrix the code computes
+(`vgbsA`, two matrix products).  So `c(n) = |Haf(A_n)|²/n!` does not depend on `θ`; this is the premise of
+`expfamily_grad`, `kl_grad_is_derivative`, `stochastic_one_sample_is_derivative` — now a theorem, not only a tie. -/
+theorem gbs_weight_expfamily {K : Type} [CommRing K] (m : Nat) (s w : Nat → K) (A : Nat → Nat → K) (n : List Nat)
+    (hm : n.length ≤ m) (hs : ∀ k, k < m → s k * s k = w k) :
+    gbsWeight (vgbsA m s A) n = mono m w n * gbsWeight A n := gbsWeight_vgbsA m s w A n hm hs
+
+/-- … and the model family over any pattern list is the truncated distribution of the trained matrix:
+numerators and partition function are the GBS weights of `A(θ)` -/
+theorem gbs_family_is_trained_distribution {K : Type} [CommRing K] (m : Nat) (s w : Nat → K) (A : Nat → Nat → K)
+    (invfact : List Nat → K) (pats : List (List Nat)) (hm : ∀ n ∈ pats, n.length ≤ m)
+    (hs : ∀ k, k < m → s k * s k = w k) :
+    Z m w (gbsSupport A invfact pats) = sumL (pats.map fun n => gbsWeight (vgbsA m s A) n * invfact n) ∧
+    ∀ n ∈ pats, (gbsWeight A n * invfact n) * mono m w n = gbsWeight (vgbsA m s A) n * invfact n :=
+  ⟨gbsSupport_Z m s w A invfact pats hm hs, fun n hn => gbsSupport_num m s w A invfact n (hm n hn) hs⟩
+
+/-- the certificate the driver evaluates for its exact inverse is sound: `isInverse = true` means `X M = 1` entrywise -/
+theorem inverse_certificate_sound {K : Type} [CommRing K] [DecidableEq K] (n : Nat) (X M : Nat → Nat → K)
+    (h : isInverse n X M = true) {i j : Nat} (hi : i < n) (hj : j < n) :
+    mm n X M i j = if i = j then 1 else 0 := isInverse_sound n X M h hi hj
+
+/-! ## chemistry helpers -/
+
+/-- `utils.duschinsky`: the product with the diagonal matrix `l⁻¹` scales component `k` of `d` by `l⁻¹_kk` -/
+theorem duschinsky_delta_entry {K : Type} [CommRing K] {a M k : Nat} (hk : k < M) (Lf : Nat → Nat → K)
+    (sm ri rf linv : Nat → K) :
+    duschDelta a M Lf sm ri rf linv k = (sumTo a fun x => Lf x k * sm x * (ri x - rf x)) * linv k :=
+  duschDelta_entry hk Lf sm ri rf linv
+
+/-- `vibronic.energies`: a sample `m ++ n` of two halves of equal length has energy `m·ω' − n·ω` -/
+theorem energies_split {K : Type} [CommRing K] (a b : List Nat) (h : a.length = b.length) (wp w : Nat → K) :
+    energy (a ++ b) wp w = dotCounts a wp 0 - dotCounts b w 0 := energy_split a b h wp w
+
+/-- `utils.marginals` asks for exactly the entries `(mode, i)` with `mode < n_modes`, `i < n_max`, `n_modes · n_max` calls -/
+theorem marginals_calls (nModes nMax : Nat) :
+    (∀ p, p ∈ marginalCalls nModes nMax ↔ p.1 < nModes ∧ p.2 < nMax) ∧
+    (marginalCalls nModes nMax).length = nModes * nMax :=
+  ⟨marginalCalls_mem nModes nMax, marginalCalls_length nModes nMax⟩
+
+/-- the sampling programs: `vibronic.sample` ends with one `MeasureFock` on all its modes, loss channels appear exactly
+when `loss` is set, one per mode; the `dynamics` core (interferometer, time evolution, interferometer) touches the
+first `N` modes only (so in `sample_tmsv` the idler modes `N..2N−1` are only squeezed, lossy and measured) -/
+theorem sample_programs (n : Nat) (anyT loss : Bool) :
+    (vibSampleOps n anyT loss).getLast? = some (.measureFock (List.range (vibSampleModes n anyT))) ∧
+    (∀ o modes, o ∈ lossOps loss modes ↔ loss = true ∧ ∃ k, k < modes ∧ o = .loss k) ∧
+    (∀ o ∈ dynCore n, ∀ x ∈ o.modes, x < n) :=
+  ⟨vibSampleOps_last n anyT loss, fun o modes => lossOps_mem loss modes o, dynCore_modes n⟩
+
 /-! ## non-vacuity -/
 
 /-- a two-mode support with rational weights: `Z ≠ 0`, the probabilities sum to one -/
@@ -237,5 +301,19 @@ example : (getSamples [10, 11] 5 fun k => (List.range k).map (· + 100)) = ([10,
 
 /-- an orbit that fits and one that does not -/
 example : orbitPatterns [1, 1] 3 = [[1, 1, 0], [1, 0, 1], [0, 1, 1]] ∧ orbitPatterns [1, 1, 1] 2 = [] := by decide
+
+/-- hafnian of the 4-cycle adjacency on pattern (1,1,1,1) is 2; scaled by s = (2,1,1,3) it is 2·(2·1·1·3) -/
+example : let A : Nat → Nat → Int := fun i j => if (i + 1) % 4 = j ∨ (j + 1) % 4 = i then 1 else 0
+    let s : Nat → Int := fun k => if k = 0 then 2 else if k = 3 then 3 else 1
+    haf A (expand [1, 1, 1, 1] 0) = 2 ∧ haf (fun i j => s i * A i j * s j) (expand [1, 1, 1, 1] 0) = 12 ∧
+    gbsWeight A [2, 0, 0, 0] = 0 ∧ expand [2, 0, 1] 0 = [0, 0, 2] := by decide
+
+/-- a sample program with thermal modes and loss; the marginal call list -/
+example : (vibSampleOps 1 true true) = [.s2gate 0 0 1, .interferometer 1 [0], .sgate 0 0, .interferometer 2 [0], .dgate 0 0,
+    .loss 0, .loss 1, .measureFock [0, 1]] ∧ marginalCalls 2 2 = [(0, 0), (0, 1), (1, 0), (1, 1)] := by decide
+
+/-- the inverse certificate on a 2×2 integer matrix -/
+example : isInverse 2 (fun i j => if i = j then (1 : Int) else if i = 0 then -2 else 0)
+    (fun i j => if i = j then (1 : Int) else if i = 0 then 2 else 0) = true := by decide
 
 end SFV.C20
